@@ -192,7 +192,7 @@ ADDED = {
  "C07": ("; sc25519 limb code re-transcribed from the source every run and proved exact; ge25519 group-operation code as for C06",
          " The scalar limb code (reduce / mul / muladd / invert) is regenerated from the source on every run and proved exact; the ge25519 point code is modelled and proved as described under C06 (two deviations outside the callers' contract stated as theorems: top window digit out of range for scalars >= 2^255, slide_vartime carry loss above 2^255). The Ristretto255 and Elligator 2 field-level code (sqrt_ratio_m1, frombytes / p3_tobytes, elligator, from_hash, mont_to_ed, from_uniform, the wrappers) is modelled in the C's statement order and proved equal, coordinate-wise and for all inputs, to RFC 9496 / RFC 9380 (Properties/C07Maps.lean, with a Pratt certificate for the primality of 2^255-19)."),
  "C08": ("; the reference Argon2 core proved equal to RFC 9106 end to end (any lane count), the reference scrypt components (Salsa20/8, BlockMix, Integerify, ROMix loops, PBKDF2) proved equal to RFC 7914 / 8018",
-         " The driver now runs the C-structured models of the reference cores (Properties/C08Core: fBlaMka .. fill_block .. index_alpha with exact bounds .. fill_segment .. finalize = RFC 9106 for every in-range input; Properties/C08Scrypt for the scrypt components); the vectorised fill / SSE2 scrypt code is compared with them per backend."),
+         " The driver now runs the C-structured models of the reference cores (Properties/C08Core: fBlaMka .. fill_block .. index_alpha with exact bounds .. fill_segment .. finalize = RFC 9106 for every in-range input; Properties/C08Scrypt for the scrypt components); the AVX2 / SSSE3 / AVX-512F Argon2 block-filling code is modelled macro by macro over a transcribed intrinsic semantics (validated against the CPU on every run) and proved equal to the reference code, hence to RFC 9106, up to crypto_pwhash (Properties/C08Simd, 49 theorems); the SSE2 scrypt code is compared with the reference model per backend."),
  "C11": ("; MiniC deep embedding + kernel-checked constant-time type checker with a soundness theorem for all programs and inputs; 24 leaf functions re-translated from the clang AST of the current source on every run",
          " Tie B: tools/c2minic.py translates the current source of 24 constant-time leaf functions (comparison / big-number / padding helpers, hex and Base64 encoders and character maps, crypto_verify, canonicity loops, fe25519 cmov / cswap, lookup helpers) into a deep embedding; `ctCheck` (every branch condition, array index, division operand and variable shift amount must be Public) is decided by the kernel for each, and `MiniC.soundness` (proved once, for every program, input and fuel) turns that into non-interference of the branch / address trace of the code as it is now. A rejected function is searched for a concrete pair of inputs with different traces under the MiniC semantics."),
 }
